@@ -153,7 +153,7 @@ def base_case(cid):
     return dict(id=cid, kind="ok", bin=None, helper=True, code=0, args=[], env_mode="default", envs=[], cwd=None,
                 uid=None, gid=None, pg=None, io=[None, None, None], pre=0, prefail=None, inj=[], payload=b"",
                 wait2=False, trywait=False, fault=None, note="", shared=None, holdstdin=False, closed=None,
-                dump_id=None, head=None, followers=None)
+                dump_id=None, head=None, followers=None, closures=None)
 
 
 def gen_config(r, sh, helper, cid, *, light=False):
@@ -189,7 +189,8 @@ def gen_config(r, sh, helper, cid, *, light=False):
     c["io"][2] = r.choice([None, "i", "n", "p", "p", "w"])
     if not light and r.random() < 0.12:
         apply_shared_stdio(c, r.choice(sorted(SHARED_STDIO)))
-    c["pre"] = r.choice([0, 0, 0, 1, 2, 3])
+    c["pre"] = 0
+    c["closures"] = [r.choice([0, 0, "y"]) for _ in range(r.choice([0, 0, 0, 1, 2, 3, 4]))]
     c["wait2"] = r.random() < 0.2
     c["trywait"] = r.random() < 0.2
     if c["io"][0] == "p" and not c["trywait"] and r.random() < 0.4:
@@ -282,6 +283,17 @@ def interleave(r, *seqs):
     return out
 
 
+def closure_list(c):
+    """Outcome of each pre-exec closure in registration order: 0 = Ok, e > 0 = Err(errno e), -1 = Err without OS code,
+    "y" = issues sched_yield itself and fails with its errno if that call is refused."""
+    if c.get("closures") is not None:
+        return list(c["closures"])
+    if c["prefail"]:
+        idx, code = c["prefail"]
+        return [0] * idx + [code] + [0] * max(0, c["pre"] - idx)
+    return [0] * c["pre"]
+
+
 def build_tokens(c, r, args, envs, settings=True):
     """The builder calls of one Command in a seeded order: arg/args and env/envs chunks in configuration order,
     the other settings anywhere in between."""
@@ -299,16 +311,22 @@ def build_tokens(c, r, args, envs, settings=True):
             if c[k] is not None:
                 other.append(["%s=%d" % (k, c[k])])
         pre = []
-        if c["prefail"]:
-            idx, code = c["prefail"]
-            if idx:
-                pre.append("pre=%d" % idx)
-            pre.append("prefail=%d" % code)
-            if c["pre"] - idx > 0:
-                pre.append("pre=%d" % (c["pre"] - idx))
-        elif c["pre"]:
-            k = r.randint(0, c["pre"])
-            pre = [x for x in ("pre=%d" % k if k else None, "pre=%d" % (c["pre"] - k) if c["pre"] - k else None) if x]
+        run = 0
+        for o in closure_list(c) + [None]:
+            if o == 0 and r.random() < 0.6:
+                run += 1            # several succeeding closures registered in one go
+                continue
+            if run:
+                pre.append("pre=%d" % run)
+                run = 0
+            if o == 0:
+                pre.append("pre=1")
+            elif o == "y":
+                pre.append("preyield=1")
+            elif o == -1:
+                pre.append("prenocode=1")
+            elif o is not None:
+                pre.append("prefail=%d" % o)
         other.append(pre)
     t = interleave(r, a, e, io, *other)
     return t
@@ -360,7 +378,7 @@ def ser_case(c, sh):
         if b.startswith(sh.bdir + b"/"):
             return {"rel": hx(b[len(sh.bdir) + 1:])}
         return {"abs": hx(b)}
-    o = {k: c[k] for k in ("id", "kind", "helper", "code", "env_mode", "uid", "gid", "pg", "pre", "wait2", "trywait", "note", "shared", "holdstdin", "closed", "dump_id")}
+    o = {k: c[k] for k in ("id", "kind", "helper", "code", "env_mode", "uid", "gid", "pg", "pre", "wait2", "trywait", "note", "shared", "holdstdin", "closed", "dump_id", "closures")}
     o["bin"], o["cwd"] = path(c["bin"]), path(c["cwd"])
     o["args"] = [hx(a) for a in c["args"]]
     o["envs"] = [hx(a) for a in c["envs"]]
@@ -380,7 +398,7 @@ def deser_case(o, sh, helper):
             return None
         return os.path.join(sh.bdir, bytes.fromhex(v["rel"])) if "rel" in v else bytes.fromhex(v["abs"])
     c = base_case(o["id"])
-    for k in ("kind", "helper", "code", "env_mode", "uid", "gid", "pg", "pre", "wait2", "trywait", "note", "shared", "holdstdin", "closed", "dump_id"):
+    for k in ("kind", "helper", "code", "env_mode", "uid", "gid", "pg", "pre", "wait2", "trywait", "note", "shared", "holdstdin", "closed", "dump_id", "closures"):
         c[k] = o[k]
     c["bin"], c["cwd"] = path(o["bin"]), path(o["cwd"])
     c["args"] = [bytes.fromhex(a) for a in o["args"]]
@@ -458,6 +476,16 @@ def gen_real_failures(r, sh, helper, next_id, thorough):
         c2["io"][s] = ("x", 900 + s)
     n_pre = r.choice([0, 1, 2])
     mk("preexec-err", pre=n_pre + r.choice([0, 1]), prefail=(n_pre, r.choice([1, 5, 13, 22, 4095])))
+    for _ in range(10 if thorough else 6):
+        n = r.choice([1, 2, 2, 3, 3, 4, 4])
+        errs = r.sample([1, 5, 13, 22, 28, 4095, 2, 9], 4)
+        seq = [r.choice([0, 0, "y", errs[i], errs[i], -1]) for i in range(n)]
+        if all(o in (0, "y") for o in seq):
+            seq[r.randrange(n)] = errs[0]
+        if n >= 2 and r.random() < 0.6:
+            seq[0 if n == 2 else r.randrange(n - 1)] = errs[1]       # a non-last one fails
+            seq[-1] = r.choice([errs[2], -1])                          # and a later one would fail differently
+        mk("preexec-sequence", closures=seq)
     # prefail index must be inside 0..pre (core.rs adds one closure for the failing one)
     for c in out:
         if c["prefail"] and c["prefail"][0] > c["pre"]:
@@ -472,8 +500,9 @@ def mode_specs(seed, thorough):
     """Parent/stdio modes whose spawn sequences are discovered and then refused call by call."""
     m = []
 
-    def add(name, io=(None, None, None), closed=None, settings=False, bad=False, shared=None, rand=None):
-        m.append(dict(name=name, io=list(io), closed=closed, settings=settings, bad=bad, shared=shared, rand=rand))
+    def add(name, io=(None, None, None), closed=None, settings=False, bad=False, shared=None, rand=None, closures=None, fails=False):
+        m.append(dict(name=name, io=list(io), closed=closed, settings=settings, bad=bad, shared=shared, rand=rand,
+                      closures=closures, fails=fails))
     add("inherit")
     add("pipes", ("p", "p", "p"))
     add("nulls", ("n", "n", "n"))
@@ -492,6 +521,10 @@ def mode_specs(seed, thorough):
     add("closed1-out-pipe", (None, "p", None), closed=[1])
     add("closed12-err-file-noprog", (None, None, "w"), closed=[1, 2], bad=True)
     add("files-noprog+settings", ("r", "w", "w"), settings=True, bad=True)
+    add("closures-ok-yield", ("n", "p", None), closures=[0, "y", 0, "y"])
+    add("closures-yield4+settings", settings=True, closures=["y", "y", "y", "y"])
+    add("closures-fail-mid", (None, "p", "p"), closures=["y", 13, "y", 5], fails=True)
+    add("closures-nocode-then-errno", closures=[0, -1, 22], fails=True)
     for i in range(40 if thorough else 12):
         add("random%d" % i, rand=i)
     if thorough:
@@ -513,16 +546,21 @@ def make_mode(spec, sh, helper, cid):
         c["io"] = list(spec["io"])
         c["uid"] = c["gid"] = c["pg"] = c["cwd"] = None
         c["pre"], c["wait2"], c["trywait"], c["holdstdin"] = 0, False, False, False
+        c["closures"] = list(spec["closures"]) if spec.get("closures") else []
         if c["bin"].startswith(b"./"):
             c["bin"] = os.path.join(sh.bdir, c["bin"][2:])
         if spec["settings"]:
-            c["cwd"], c["uid"], c["gid"], c["pg"], c["pre"] = os.path.join(sh.bdir, b"cwd-a"), 0, 54321, 0, 2
+            c["cwd"], c["uid"], c["gid"], c["pg"] = os.path.join(sh.bdir, b"cwd-a"), 0, 54321, 0
+            if not c["closures"]:
+                c["closures"] = [0, 0]
         if spec["shared"]:
             apply_shared_stdio(c, spec["shared"])
         c["closed"] = list(spec["closed"]) if spec["closed"] else None
         if spec["bad"]:
             c["kind"], c["helper"] = "real", False
             c["bin"] = os.path.join(sh.bdir, b"does-not-exist")
+        if spec.get("fails"):
+            c["kind"] = "real"
     c["payload"] = b"mode payload " + spec["name"].encode()
     c["mode"] = spec["name"]
     c["note"] = "mode " + spec["name"]
@@ -564,6 +602,12 @@ def discover_cells(co, cid, P):
             child.append(e)
             if ch["exec_seq"] is not None and e.seq > ch["exec_seq"]:
                 break           # first call completing after the E event: the exec itself
+    # a pre-exec closure that fails by itself ends the child's sequence: what the child does after it is error reporting
+    if Q is not None:
+        bad_cl = [e.seq for e in co.children[Q]["ev"] if e.k == "M" and e.kind == 3 and e.a[0] == K_PREEXEC and e.a[3] != 0]
+        if bad_cl:
+            child = [e for e in child if e.seq < bad_cl[0]]
+            post = []
     cells = []
     occ = {}
     for side, evs, after in (("parent", pre, False), ("child", child, True), ("parent", post, True)):
@@ -1062,8 +1106,9 @@ class Judge:
                     if e.ret < 0:
                         fails.append((e.seq, "child", step, det, -e.ret, e.inj))
                 if e.k == "M" and e.kind == 3 and e.a[0] == K_PREEXEC and e.a[1] == cid and e.a[3] != 0:
-                    fails.append((e.seq, "child", "pre-exec", "", e.a[3], False))
+                    fails.append((e.seq, "child", "pre-exec", "closure%d" % e.a[2], e.a[3], False))
         fails.sort()
+        ncl = closure_list(c)
         # injected fault that was never reached?
         if c["fault"]:
             hit = any(e.k == "S" and e.inj for e in co.order)
@@ -1113,6 +1158,24 @@ class Judge:
             first = f
             break
         okc = "%s/%s" % (self.fl, c["kind"])
+        # ---- pre-exec closures: registration order, each at most once, none after the first failed child-side step ----
+        for pid, ch in kids:
+            tr = [e for e in ch["ev"] if e.k == "M" and e.kind == 3 and e.a[0] == K_PREEXEC and e.a[1] == cid
+                  and (ch["exec_seq"] is None or e.seq < ch["exec_seq"])]
+            cfail = [f for f in fails if f[1] == "child" and f[2] != "execve" and not (f[2] == "dup2" and f[4] == ERRNO["EBUSY"])]
+            if cfail:
+                late = [e.a[2] for e in tr if e.seq > cfail[0][0]]
+                if late:
+                    f0 = cfail[0]
+                    self.viol("C13/pre-exec/closure-ran-after-earlier-failure", c, co,
+                              "closure(s) %r ran in the forked child after %s%s had already failed (errno %d): the first failing step "
+                              "must end the sequence (closures registered: %r)" % (late, f0[2], " " + f0[3] if f0[3] else "", f0[4], ncl))
+                    ck.note_distinct("%s/defect/closure-ran-after-failure" % self.fl)
+                    return "judged"
+            if [e.a[2] for e in tr] != list(range(len(tr))) or len(tr) > len(ncl):
+                self.viol("C13/child/pre-exec-closures", c, co, "closures ran as %r, registered %r: not each at most once in registration order"
+                          % ([e.a[2] for e in tr], ncl))
+                return "judged"
 
         # ---- the caller was told Err ------------------------------------------------------------------
         if kind != 1:
@@ -1162,6 +1225,21 @@ class Judge:
                 self.viol("C13/spawn/valid-configuration-failed/%s-%s" % (stepname, ENAME.get(e_exp, e_exp)), c, co,
                           "%s failed with errno %d (%s) for a configuration whose every step is valid: what the library handed "
                           "to the kernel is not what was configured" % (stepname, e_exp, ENAME.get(e_exp, "?")), got=dict(kind=kind, code=code))
+                return "judged"
+            if step == "pre-exec" and e_exp == -1:
+                if kind == -1:
+                    ck.note_distinct("%s/err/child/pre-exec/no-code" % okc)
+                    ck.count("errors_reported_without_code_for_codeless_closure")
+                    self.sample(c, "Err(no code) from pre-exec closure")
+                    return "judged"
+                self.viol("C13/pre-exec/wrong-closure-errno-reported", c, co,
+                          "%s failed with an error that carries no OS code, the caller got kind=%d code=%d (closures %r)"
+                          % (stepname, kind, code, ncl), got=dict(kind=kind, code=code))
+                return "judged"
+            if step == "pre-exec" and not (kind == 0 and code == e_exp):
+                self.viol("C13/pre-exec/wrong-closure-errno-reported", c, co,
+                          "%s was the first failing step (errno %d) but the caller's error is kind=%d code=%d (closures %r)"
+                          % (stepname, e_exp, kind, code, ncl), expected=e_exp, got=dict(kind=kind, code=code))
                 return "judged"
             if kind == 0 and code == e_exp:
                 ck.note_distinct("%s/err/%s/%s/%s" % (okc, first[1], stepname, ENAME.get(e_exp, e_exp)))
@@ -1404,9 +1482,9 @@ class Judge:
                                 % (STREAM[s], STREAM[n])))
         # pre-exec closures: each once, in order, in the child, before exec
         pre = [e for e in ch["ev"] if e.k == "M" and e.kind == 3 and e.a[0] == K_PREEXEC and e.a[1] == cid]
-        if [e.a[2] for e in pre] != list(range(c["pre"])) or any(e.seq > ch["exec_seq"] for e in pre):
+        if [e.a[2] for e in pre] != list(range(len(ncl))) or any(e.seq > ch["exec_seq"] for e in pre):
             bad.append(("child/pre-exec-closures", "closures ran as %r, expected 0..%d once each in order before exec"
-                        % ([e.a[2] for e in pre], c["pre"])))
+                        % ([e.a[2] for e in pre], len(ncl))))
         if any(e.k == "M" and e.kind == 3 and e.a[0] == K_PREEXEC for e in co.pev):
             bad.append(("child/pre-exec-in-caller", "a pre-exec closure ran in the caller"))
         # wait
@@ -1450,7 +1528,7 @@ class Judge:
         ck.note_distinct("%s/ok/env-%s-%s/args-%s" % (self.fl, c["env_mode"] if c["env_mode"] == "provided" else ("inherit" if self.start else "none"),
                                                       nargs_class(len(c["envs"])), nargs_class(len(c["args"]))))
         ck.note_distinct("%s/ok/cwd-%s/uid-%s/gid-%s/pg-%s/pre-%d" % (
-            self.fl, "set" if c["cwd"] is not None else "unset", c["uid"], c["gid"], c["pg"], c["pre"]))
+            self.fl, "set" if c["cwd"] is not None else "unset", c["uid"], c["gid"], c["pg"], len(ncl)))
         ck.count("spawns_ok_verified")
         self.sample(c, "Ok: helper dump, stdio identities, round trip and wait status match (exit code %d)" % c["code"])
         return "judged"
